@@ -278,8 +278,29 @@ def coq_compile_props(pid, timeout=900):
     return res
 
 
+_MODEL_CACHE = {}
+_SRC_SHA = None
+
+
+def _coq_sources_sha():
+    global _SRC_SHA
+    if True:      # recomputed on every (uncached) build: a translator may have rewritten a Gen file meanwhile
+        h = hashlib.sha1()
+        fs = []
+        for root, _, files in os.walk(os.path.join(COQ, "theories")):
+            fs += [os.path.join(root, f) for f in files if f.endswith(".v")]
+        for f in sorted(fs) + [os.path.join(ROOT, "ocaml", "drvlib.ml")]:
+            h.update(f.encode())
+            h.update(open(f, "rb").read())
+        _SRC_SHA = h.hexdigest()
+    return _SRC_SHA
+
+
 def build_model(area):
-    """Extract theories/Extract_<area>.v and link the generic driver: build/ocaml/<area>/<area>."""
+    """Extract theories/Extract_<area>.v and link the generic driver: build/ocaml/<area>/<area>.
+    Built at most once per process (translators must run before the first call)."""
+    if area in _MODEL_CACHE:
+        return _MODEL_CACHE[area]
     d = os.path.join(B, "ocaml", area)
     os.makedirs(d, exist_ok=True)
     exv = os.path.join(COQ, "theories", "Extract_%s.v" % area)
@@ -292,9 +313,10 @@ def build_model(area):
         rc, out = sh(["make", "-k", "-j%d" % NCPU] + vos, cwd=COQ, timeout=1800)
         if rc != 0:
             raise BuildError("model %s does not compile:\n%s" % (area, out[-6000:]))
-        newest = max([os.path.getmtime(os.path.join(COQ, v)) for v in vos] + [os.path.getmtime(exv),
-                     os.path.getmtime(os.path.join(ROOT, "ocaml", "drvlib.ml"))])
-        if os.path.exists(exe) and os.path.getmtime(exe) >= newest:
+        # staleness by content (mtimes lie after bin/mutcheck's rsync): hash of every .v source and of the driver
+        sha = _coq_sources_sha()
+        if os.path.exists(exe) and os.path.exists(exe + ".sha") and open(exe + ".sha").read() == sha:
+            _MODEL_CACHE[area] = exe
             return exe
         m = re.search(r'Extraction\s+"([a-z0-9_]+)\.ml"\s+([^.]*)\.', txt, flags=re.S)
         modname, names = m.group(1), m.group(2).split()
@@ -313,6 +335,8 @@ def build_model(area):
         if rc != 0:
             raise BuildError("ocaml build %s failed:\n%s" % (area, out[-6000:]))
         os.replace(os.path.join(d, area + ".tmp"), exe)
+        open(exe + ".sha", "w").write(sha)
+        _MODEL_CACHE[area] = exe
     return exe
 
 
